@@ -824,6 +824,15 @@ func Families(tier string) []Family {
 				c.Self = true
 				c.Prog = T("tool")
 			}
+			if variant == 1 || variant == 4 {
+				// a program without a help command: the text comes from Help(); with options declared after the commands
+				// (variant 1) the top level's options exist when its last command is created and reach the earlier
+				// ones through it
+				cn := c
+				cn.Nodes = append([]NodeCfg{}, c.Nodes...)
+				cn.Opts = append([]OptCfg{}, c.Opts...)
+				f.Defs = append(f.Defs, Def{Cfg: cn, Tokens: Ts("c1", "sub", "w", "ws"), L: 2, Disp: true, HelpF: true})
+			}
 			c = WithHelp(c, hname, "?", "hlp")
 			c.Opts[c.HelpOpt()-1].AliasSplit = variant >= 2
 			toks = Ts("--"+hname, hname, "c1", "sub", "w", "ws")
